@@ -33,6 +33,8 @@ pub struct PluginOpts {
     pub yomigana_cfg: Option<(Vec<char>, Vec<char>, usize)>,
     /// katakana joining before numeric joining
     pub path_swapped: bool,
+    /// additional OOV provider configurations placed before the others
+    pub extra_oov_front: Vec<Value>,
 }
 
 impl PluginOpts {
@@ -53,6 +55,7 @@ impl PluginOpts {
             prolonged_cfg: None,
             yomigana_cfg: None,
             path_swapped: false,
+            extra_oov_front: vec![],
         }
     }
 
@@ -103,7 +106,7 @@ impl PluginOpts {
             input.push(json!({"class": format!("{}IgnoreYomiganaPlugin", CLS),
                 "leftBrackets": l, "rightBrackets": r, "maxYomiganaLength": max}));
         }
-        let mut oov = vec![];
+        let mut oov = self.extra_oov_front.clone();
         if self.mecab {
             oov.push(json!({"class": format!("{}MeCabOovPlugin", CLS), "charDef": "char.def", "unkDef": "unk.def"}));
         }
